@@ -402,6 +402,69 @@ private:
         }
     }
 
+    static std::string_view get_level_name(const sbe::message_schema&)
+    {
+        return "message";
+    }
+
+    static std::string_view get_level_name(const sbe::message&)
+    {
+        return "message";
+    }
+
+    static std::string_view get_level_name(const sbe::group&)
+    {
+        return "group";
+    }
+
+    static std::string_view get_header_type(const sbe::message_schema& s)
+    {
+        return s.header_type;
+    }
+
+    std::string_view get_header_type(const sbe::message&) const
+    {
+        return schema->header_type;
+    }
+
+    static std::string_view get_header_type(const sbe::group& g)
+    {
+        return g.dimension_type;
+    }
+
+    // `fill_message_header/fill_group_header` set header elements using
+    // values from the schema, they must be representable by element's type
+    template<typename Level>
+    void validate_header_value(
+        const Level& level,
+        const std::string_view element_name,
+        const std::uint64_t value) const
+    {
+        const auto level_name = get_level_name(level);
+        // at this point header is already validated
+        const auto& header =
+            std::get<sbe::composite>(*get_encoding(get_header_type(level)));
+        if(!utils::find_composite_element(header, element_name))
+        {
+            // `numGroups` and `numVarDataFields` are optional
+            return;
+        }
+
+        const auto& [t, element_location] =
+            get_level_header_element(header, level_name, element_name);
+        if(!value_fits_into_type(std::to_string(value), t.primitive_type))
+        {
+            throw_error(
+                "{}: value `{}` cannot be represented by {} header element "
+                "`{}` of type `{}`",
+                level.location,
+                value,
+                level_name,
+                element_name,
+                t.primitive_type);
+        }
+    }
+
     template<typename MessageOrGroup>
     void validate_block_length(
         const MessageOrGroup& level, const block_length_t actual_block_length)
@@ -424,6 +487,11 @@ private:
         {
             ctx_manager->get(level).actual_block_length = actual_block_length;
         }
+
+        validate_header_value(
+            level,
+            "blockLength",
+            ctx_manager->get(level).actual_block_length);
     }
 
     std::size_t get_encoding_size(const sbe::encoding& enc)
@@ -482,6 +550,8 @@ private:
 
         // at this point `offset` is essentially a minimal blockLength value
         validate_block_length(level, offset);
+        validate_header_value(level, "numGroups", members.groups.size());
+        validate_header_value(level, "numVarDataFields", members.data.size());
 
         for(const auto& g : members.groups)
         {
@@ -505,6 +575,7 @@ private:
         validate_name(m);
         validate_versions(m);
         ctx_manager->create(m);
+        validate_header_value(m, "templateId", m.id);
         validate_members(m);
     }
 
@@ -655,6 +726,8 @@ private:
             schema->header_type,
             {"schemaId", "templateId", "version", "blockLength"});
         // strict: validate optional `numGroups` and `numVarDataFields`
+        validate_header_value(*schema, "schemaId", schema->id);
+        validate_header_value(*schema, "version", schema->version);
     }
 
     void validate_group_header(const sbe::group& g)
